@@ -8,6 +8,7 @@ import DEvo.Sql.Rebuild
 import DEvo.Sql.Schema
 import DEvo.Run.Tx
 import DEvo.Run.History
+import DEvo.Run.Migrations
 
 /-! Line protocol driver: one JSON object per input line, one JSON object per output line.
 Only model modules (no Mathlib/Batteries) are imported, so this links as a `lean_exe`. -/
@@ -105,6 +106,17 @@ def handle (j : Json) : Except String Json := do
   | "variant" =>
     pure (Json.mkObj [("commit_on_failure", toJson Run.commitOnFailure),
       ("mergeable_ok", toJson (Sql.mergeableOK Generated.mergeableOps))])
+  | "migrations" =>
+    let m ← j.getObjValAs? Nat "m"
+    let s ← j.getObjValAs? Nat "s"
+    let recorded ← jNatList (← j.getObjVal? "recorded")
+    let fresh ← j.getObjValAs? Bool "fresh"
+    -- a new app whose sequence ends in MoveToDjangoMigrations is created through its migrations:
+    -- nothing is "already covered" on an empty database
+    let st : Run.MigState := ⟨m, recorded⟩
+    let s' := if fresh then 0 else s
+    pure (Json.mkObj [("execute", natsJ (Run.toExecute st s')), ("mark", natsJ (Run.extraApplied st s')),
+      ("recorded_after", natsJ (Run.runMig st s').recorded)])
   | "history" =>
     -- C08 bookkeeping model: a list of steps from the empty database (one Version row)
     let stepsJ ← (← j.getObjVal? "steps").getArr?
